@@ -105,6 +105,7 @@ class World:
 
 
 async def main():
+    print(_x.__file__)
     loop = asyncio.get_running_loop()
     clock = Clock(loop)
     xknx = make_xknx()
